@@ -389,6 +389,30 @@ func main() {
 			}
 		}
 	}
+	// outages: a source fails, recovers with an unchanged or a newer record, more than a
+	// time-to-live passes, it fails again (the countdown of the first outage must have been
+	// cancelled); a miss-fetched provider whose newest source fails at the next refresh
+	for _, newer := range []bool{false, true} {
+		for _, miss := range []bool{false, true} {
+			ops := []pcdrv.Op{pcdrv.Set(0, P, 1)}
+			if miss {
+				ops = append(ops, pcdrv.Get(P))
+			} else {
+				ops = append(ops, pcdrv.Refresh())
+			}
+			ops = append(ops, pcdrv.RefreshFail(0)) // first outage: the countdown starts
+			if newer {
+				ops = append(ops, pcdrv.Set(0, P, 2))
+			}
+			ops = append(ops, pcdrv.Refresh(), pcdrv.Expire(), pcdrv.RefreshFail(0), pcdrv.Get(P), pcdrv.Refresh(), pcdrv.Expire(), pcdrv.RefreshFail(0), pcdrv.Expire(), pcdrv.RefreshFail(0), pcdrv.Get(P))
+			items = append(items, &item{fam: "targeted", h: pcdrv.History{NSrc: 2, Ops: ops}})
+		}
+	}
+	for _, order := range [][2]int{{0, 1}, {1, 0}} {
+		a, b := order[0], order[1] // a holds the newest version
+		ops := []pcdrv.Op{pcdrv.Set(b, P, 3), pcdrv.Set(a, P, 5), pcdrv.Get(P), pcdrv.RefreshFail(a), pcdrv.Get(P), pcdrv.Refresh(), pcdrv.RefreshFail(a), pcdrv.Get(P)}
+		items = append(items, &item{fam: "targeted", h: pcdrv.History{NSrc: 2, Ops: ops}})
+	}
 	nTargeted := len(items) - nWords
 
 	// ---- the same sources served over HTTP and read by pcache's own HTTP source: all words
